@@ -337,6 +337,75 @@ func runC04(w *World, r *Report) {
 		r.Check(good, "C04.any-chunks-by-dynamic-type", "ConcatItems: interface element types are dispatched dynamically", ci.Pos(), "a retyping helper of package internal is called under typ.Kind() == reflect.Interface", "ConcatItems looks at the static element type only: for []any it finds no concat function and fails with 'cannot concat multiple non-zero value of type interface {}' — Invoke (which must concatenate the stream-only node's output) fails where Stream / Collect / Transform, whose edge converter narrows every chunk to string first, succeed")
 	}
 
+	r.Rule("C04.chain-branch-wrappers-agree", "Chain.AppendBranch translates the branch's answers into node keys the same way for the value form and the stream form of the condition: every key either wrapper returns is looked up in the one table the stage's nodes were registered under (a name rebuilt from the default pattern misses nodes added with WithNodeKey)", 2)
+	{
+		ab := w.Fn("compose", "Chain.AppendBranch")
+		n := 0
+		instrs(ab, func(in ssa.Instruction) {
+			mc, ok := in.(*ssa.MakeClosure)
+			if !ok {
+				return
+			}
+			lit := mc.Fn.(*ssa.Function)
+			res := lit.Signature.Results()
+			if res.Len() != 2 {
+				return
+			}
+			if sl, ok := res.At(0).Type().Underlying().(*types.Slice); !ok || !types.Identical(sl.Elem(), types.Typ[types.String]) {
+				return
+			}
+			n++
+			nApp, bad := 0, 0
+			instrs(lit, func(x ssa.Instruction) {
+				c, ok := x.(*ssa.Call)
+				if !ok || !isBuiltin(c, "append") || len(c.Call.Args) < 2 {
+					return
+				}
+				sl, ok := c.Call.Args[1].(*ssa.Slice)
+				if !ok {
+					return
+				}
+				al, ok := sl.X.(*ssa.Alloc)
+				if !ok {
+					return
+				}
+				for _, ref := range *al.Referrers() {
+					ia, ok := ref.(*ssa.IndexAddr)
+					if !ok {
+						continue
+					}
+					for _, r2 := range *ia.Referrers() {
+						st, ok := r2.(*ssa.Store)
+						if !ok {
+							continue
+						}
+						nApp++
+						fromTable := false
+						if ex, ok := st.Val.(*ssa.Extract); ok && ex.Index == 0 {
+							if lk, ok := ex.Tuple.(*ssa.Lookup); ok {
+								v := lk.X
+								if u, ok := v.(*ssa.UnOp); ok {
+									v = u.X
+								}
+								if _, isFV := v.(*ssa.FreeVar); isFV {
+									fromTable = true
+								}
+							}
+						}
+						if !fromTable {
+							bad++
+						}
+					}
+				}
+			})
+			r.Check(nApp > 0 && bad == 0, "C04.chain-branch-wrappers-agree", fmt.Sprintf("Chain.AppendBranch wrapper %s answers with registered node keys", lit.Name()), lit.Pos(), fmt.Sprintf("%d returned keys, each looked up in the captured key table", nApp),
+				fmt.Sprintf("%d of %d keys the wrapper returns are not taken from the table the nodes were registered under: one form of the condition (value or stream) names a node that does not exist when a branch target was added with WithNodeKey — Invoke works, Stream / Collect / Transform fail with 'target channel doesn't existed'", bad, nApp))
+		})
+		if n < 2 {
+			undecidedf("C04.chain-branch-wrappers-agree: %d condition wrappers found in Chain.AppendBranch (2 expected)", n)
+		}
+	}
+
 	// ---- role-uniform (generalises in-out-wiring to every struct and function of the module)
 	r.Rule("C04.role-uniform", "within one function, same-role fields (input* / output*, pre* / post*) of one struct are filled from sources of one role; a lone cross-role assignment is a copy within one object", 20)
 	ruleRoleUniform(w, r, "C04.role-uniform", "compose", "schema", "internal", "flow", "callbacks", "components", "utils")
